@@ -90,6 +90,20 @@ inductive OperandCfg where
   | empty (code : Option CodeCfg)
 deriving Repr, Inhabited
 
+/-- the leftmost atom of an expression reached through left operands of binary operators only (the
+    text in front of the first operator), with the operator that joins it to the rest -/
+def leftAtom : E → Option (String × BinOp)
+  | .bin o (.label s) _ => some (s, o)
+  | .bin _ l _ => leftAtom l
+  | _ => none
+
+/-- the same expression with that atom replaced by 0: `[sp - 6 + 2]` has the offset `0 - 6 + 2`
+    (`IndirectRegisterOperand.parse_operand` prepends `0` to the text behind the register) -/
+def zeroLeft : E → E
+  | .bin o (.label _) r => .bin o (.num 0) r
+  | .bin o l r => .bin o (zeroLeft l) r
+  | e => e
+
 /-- `OperandType` values: the sort key inside an operand set -/
 def OperandCfg.rank : OperandCfg → Nat
   | .empty _ => 1
@@ -213,6 +227,20 @@ def accepts (regs : List String) (gz : Int × Int) (id : String) (c : OperandCfg
           if hasReg regs oe then .decline
           else .ok { id := id, code := code.map codeField, arg := some (argField a oe .plain) }
       else .decline
+    | .bin o₂ l₂ r₂ =>
+      -- further terms behind the first one: `[sp - 6 + 2]` — the offset is all the text behind the
+      -- register with `0` in the register's place, evaluated as one expression
+      match leftAtom (.bin o₂ l₂ r₂) with
+      | some (s, o) =>
+        if (o == .add || o == .sub) && eqIgnoreCase s r then
+          match off with
+          | none => .hard
+          | some a =>
+            let oe := zeroLeft (.bin o₂ l₂ r₂)
+            if hasReg regs oe then .decline
+            else .ok { id := id, code := code.map codeField, arg := some (argField a oe .plain) }
+        else .decline
+      | none => .decline
     | _ => .decline
   | .indReg .., _ => .decline
   | .indIdxReg r code idx, .ind (.bin .add (.label s) i) =>
